@@ -76,8 +76,11 @@ type JFile struct {
 	Nested []string `json:"nested,omitempty"`
 	// HeaderBytes > 0: a licence comment of at least that many bytes precedes the package line (sizes
 	// around the usual buffer sizes: the first mention of anything interesting lies beyond them)
-	HeaderBytes int    `json:"header_bytes,omitempty"`
-	Text        string `json:"text"`
+	HeaderBytes int `json:"header_bytes,omitempty"`
+	// LegacyComment: a comment holding bytes that are not valid UTF-8 (a Latin-1 / GBK source); the
+	// scenario carries a marker, the materialised file the bytes
+	LegacyComment bool   `json:"legacy_comment,omitempty"`
+	Text          string `json:"text"`
 	// ground truth for the Spring role
 	Apis []ApiTruth `json:"apis,omitempty"`
 }
@@ -105,6 +108,9 @@ func (f *JFile) Render() {
 		add(" */")
 	}
 	add("package " + f.Pkg + ";")
+	if f.LegacyComment {
+		add("// caf\u00a7LEGACY\u00a7 au lait: a comment in a legacy 8-bit encoding")
+	}
 	add("")
 	for i := range f.Imports {
 		im := &f.Imports[i]
@@ -231,6 +237,7 @@ type Options struct {
 	Services           bool // *Service classes with long parameter lists sharing parameter names
 	Nested             bool // nested interface / static class members (beyond the conventional subset)
 	Enums              bool // an enum file with field, constructor and method (beyond the conventional subset)
+	WideLine           bool // a one-line class wider than 64 Ki columns (differential checks only)
 	Legacy             bool // one class has a method with hundreds of local variables (generated / legacy code)
 	ServiceMethod      bool // @ServiceMethod on interface methods (coca reports their implementations as APIs); differential checks only
 }
@@ -266,6 +273,8 @@ type gctx struct {
 	forceField map[int]string
 	// legacyFile: index of the class that gets the legacy method (Options.Legacy)
 	legacyFile int
+	// wideServices: every *Service class of the project has 6-10 long methods over ten shared parameter names
+	wideServices bool
 	// forceImport[i] = qualified type class/interface i must import and use (field type, or the
 	// extended type of an interface): two files of one package using the same simple name with
 	// different imports - a resolution must never be carried from one file to the other
@@ -318,6 +327,9 @@ func GenProject(t *tape.Tape, o Options) *Project {
 	g.forceSvc = map[int]string{}
 	if o.Legacy {
 		g.legacyFile = t.Pick(len(g.classes))
+	}
+	if o.Services {
+		g.wideServices = t.Bool(1, 4)
 	}
 	if o.TwinNames && len(g.classes) >= 1 && t.Bool(2, 3) {
 		c := g.classes[t.Pick(len(g.classes))]
@@ -422,6 +434,27 @@ func GenProject(t *tape.Tape, o Options) *Project {
 			u.Path = strings.ReplaceAll(pkg, ".", "/") + "/" + un + ".java"
 			p.Files = append(p.Files, u)
 		}
+	}
+	if o.WideLine && t.Bool(1, 2) {
+		// a machine-written class on ONE line, wider than 64 Ki columns: the methods b<i> start exactly
+		// 65536 columns after the methods a<i> (positions that coincide once a column is cut to 16 bits)
+		pkg := g.classes[t.Pick(len(g.classes))].pkg
+		head := "package " + pkg + "; public class WideTable { "
+		var as, bs string
+		cell := func(m string) string { return m + strings.Repeat(" ", 48-len(m)) } // equal widths keep the pairs aligned
+		for i := 0; i < 4; i++ {
+			as += cell(fmt.Sprintf("public void a%d() { Left.x%d(); }", i, i))
+			if i < 2 {
+				bs += cell(fmt.Sprintf("public void b%d() { Right.y%d(); }", i, i))
+			} else {
+				bs += cell(fmt.Sprintf("public void a%d(int k) { Right.y%d(); }", i, i)) // an overload, 65536 columns to the right
+			}
+		}
+		pad := strings.Repeat(" ", 65536-len(as))
+		text := head + as + pad + bs + "}\n"
+		f := &JFile{ID: fmt.Sprintf("f%d", len(p.Files)), Pkg: pkg, Name: "WideTable", Kind: "class", Text: text}
+		f.Path = strings.ReplaceAll(pkg, ".", "/") + "/WideTable.java"
+		p.Files = append(p.Files, f)
 	}
 	if o.ServiceMethod && t.Bool(1, 2) {
 		// a service interface with a @ServiceMethod method, an implementor that imports it (coca reports
@@ -570,6 +603,7 @@ func (g *gctx) genFile(fi int) *JFile {
 	} else if t.Bool(1, 4) {
 		f.Annotations = append(f.Annotations, g.pick([]string{"@Component", "@Service", "@Deprecated", "@SuppressWarnings(\"unchecked\")"}))
 	}
+	f.LegacyComment = t.Bool(1, 10)
 	if t.Bool(1, 10) {
 		f.HeaderBytes = []int{600, 4100, 8200, 16400, 33000, 65600}[t.Pick(6)]
 	}
@@ -845,9 +879,19 @@ func (g *gctx) genFile(fi int) *JFile {
 	if g.o.Services && f.Kind == "class" && strings.Contains(strings.ToLower(ci.name), "service") {
 		pool := []string{"tenant", "user", "order", "amount", "currency", "note"}
 		ns := t.Int(2, 4)
+		if g.wideServices {
+			// many long methods sharing ten parameter names: dozens of frequent name sets per size
+			pool = append(pool, "channel", "region", "locale", "trace")
+			ns = t.Int(6, 10)
+		}
 		for i := 0; i < ns; i++ {
 			m := JMethod{Modifiers: "public", Name: g.pick([]string{"create", "update", "cancel", "createDraft", "updateAll"}) + fmt.Sprintf("%d", i), Ret: "void"}
 			skip := t.Pick(len(pool) + 2)
+			if g.wideServices {
+				// four names in every method, each of the other six missing from every sixth method: every
+				// single name is frequent, the six are not frequent together - several largest name sets
+				skip = 4 + i%6
+			}
 			for k, pn := range pool {
 				if k == skip {
 					continue
@@ -892,6 +936,18 @@ func (g *gctx) genFile(fi int) *JFile {
 			b = append(b, "}")
 		}
 		f.Nested = append(f.Nested, strings.Join(b, "\n"))
+		if t.Bool(1, 2) {
+			// a sibling nested class, itself holding a nested class (two levels)
+			sib := []string{"public static class Entry {", "    private String key;", "", "    public String getKey() {", "        return key;", "    }"}
+			if t.Bool(1, 2) {
+				sib = append(sib, "", "    public static class Meta {", "        public int size() {", "            return 0;", "        }", "    }")
+			}
+			sib = append(sib, "}")
+			f.Nested = append(f.Nested, strings.Join(sib, "\n"))
+			if t.Bool(1, 2) {
+				f.Nested = append(f.Nested, "public static class Totals {\n    public int sum() {\n        return 0;\n    }\n}")
+			}
+		}
 	}
 	// getters/setters of differing lengths (evaluation summary: lengths and their deviation)
 	if g.o.Getters && f.Kind == "class" {
